@@ -1,12 +1,17 @@
 (* C08 — every configured output receives every row, faithfully.
    Model: theories/Streams.v (snowfakery/output_streams.py, api.py configure_output_stream,
-   parse_recipe_yaml.py TableInfo).  Only statements here; proofs live in proofs/StreamsP.v.
+   parse_recipe_yaml.py TableInfo), theories/StreamParse.v (parse_recipe_yaml.py: include files,
+   macros, nested templates, friends, variables -> registered templates), theories/StreamCodecs.v
+   (the csv / json / sqlite-dump / debug text formats as executable writers and readers).
+   Only statements here; proofs live in proofs/StreamsP.v, StreamParseP.v, StreamCodecsP.v.
 
-   The codec part of the property (what each format writes for each value type) is carried by
-   the correspondence check: every decoded cell of every artefact is compared with
-   [Streams.encode] / [Streams.obs_row] on every run.  Theorems below cover the machinery that
-   moves rows: the database stream's buffer, the inferred schema, the multiplexer, totality
-   of the encoder tables, and the application layer around close().
+   What each format writes for each value type ([Streams.encode] / [Streams.obs_row]) and the bytes
+   of the artefacts ([StreamCodecs.csv_file], [json_doc], [sql_insert], [txt_line]) are tied to
+   /repo by the correspondence check on every run: the bytes of every small artefact are read by
+   the model's readers and compared with the model's writers.  Theorems below cover the machinery
+   that moves rows (the database stream's buffer, the multiplexer, the application layer around
+   close()), where the schema comes from (the parser), and the formats themselves (reader . writer
+   = identity for all rows).
 
    Full statement of the last clause ("a run that reports success has lost nothing"):
      forall e outs rows ss clean, env_ok e -> Forall (initial e) outs ->
@@ -14,8 +19,8 @@
    It is FALSE for the code as it is (finding K9): proved below restricted to clean = true
    (C08_success_means_lossless_partial) and refuted in general (C08_refuted_close_error_swallowed). *)
 From Coq Require Import ZArith List String.
-From SFV Require Import Base Streams.
-From SFV.P Require Import StreamsP.
+From SFV Require Import Base Streams StreamParse StreamCodecs StreamCases.
+From SFV.P Require Import StreamsP StreamParseP StreamCodecsP.
 Import ListNotations. Open Scope Z_scope.
 
 (* SqlDbOutputStream (hc = true) and the stream inside SqlTextOutputStream (hc = false):
@@ -126,6 +131,104 @@ Theorem C08_refuted_close_error_swallowed :
 Proof. exact success_means_lossless_refuted. Qed.
 Print Assumptions C08_refuted_close_error_swallowed.
 
+(* ---- where the schema comes from: the parser ---- *)
+
+(* For every recipe — any number of include files, macros (including macros), templates nested in
+   field values or function arguments to any depth, friends, variables — that the parser accepts:
+   every template occurring anywhere in any file reachable through include_file was handed to
+   TableInfo.register with its table, its update-key flag and ALL its fields (its own and those
+   of its macros).  [ms] is the macro dictionary: it holds the macros of every reachable file. *)
+Theorem C08_parse_registers_all :
+  forall files main regs, parse_recipe files main = Ok regs ->
+  exists ms,
+    (forall f' m, reach files main f' -> In m (f_macros f') -> In m ms) /\
+    forall f' t, reach files main f' -> occ_stmts ms (f_stmts f') t ->
+      exists ft, In ft regs /\ t_table ft = tpl_table t /\ t_upd ft = tpl_upd t /\
+                 forall f, eff_field ms t f -> In f (t_fields ft).
+Proof. exact parse_covers. Qed.
+Print Assumptions C08_parse_registers_all.
+
+(* hence every key of every row such a template generates (id, the update-key marker, every
+   non-hidden field) is a column of its table in the schema the CSV and SQL outputs are created
+   from: DictWriter does not raise and the projection in _flush_rows drops nothing *)
+Theorem C08_parse_schema_covers :
+  forall files main tables, recipe_schema files main = Ok tables ->
+  exists ms,
+    (forall f' m, reach files main f' -> In m (f_macros f') -> In m ms) /\
+    forall f' t, reach files main f' -> occ_stmts ms (f_stmts f') t -> hidden (tpl_table t) = false ->
+      exists ti, aget (tpl_table t) tables = Some ti /\
+        forall k, k = "id"%string \/ (tpl_upd t = true /\ k = upd_key) \/ (eff_field ms t k /\ hidden k = false) ->
+          In k (fallback ti) /\ In k (csv_header ti).
+Proof. exact parse_schema_covers. Qed.
+Print Assumptions C08_parse_schema_covers.
+
+(* the fuel parameters of the model's parser (macro expansion depth, include depth) are always
+   enough: the model never gives up on a recipe, it accepts it or refuses it like the parser *)
+Theorem C08_parse_never_out_of_fuel :
+  forall files main, parse_recipe files main <> Err OutOfFuel.
+Proof. exact parse_recipe_nofuel. Qed.
+Print Assumptions C08_parse_never_out_of_fuel.
+
+(* ---- the formats: reader (writer x) = x ---- *)
+
+(* CSV (csv.writer, excel dialect, QUOTE_MINIMAL, CR LF): for EVERY list of rows of fields of any
+   code points — commas, quotes, CR, LF, empty fields, empty rows included — the reader state
+   machine returns exactly the rows; so two different tables never give the same file *)
+Theorem C08_csv_roundtrip : forall rows : list (list text), csv_read (csv_file rows) = Ok rows.
+Proof. exact csv_roundtrip. Qed.
+Print Assumptions C08_csv_roundtrip.
+
+Theorem C08_csv_injective : forall a b : list (list text), csv_file a = csv_file b -> a = b.
+Proof. exact csv_injective. Qed.
+Print Assumptions C08_csv_injective.
+
+(* the file of one table: header, then per row the encoder-table cells in header order *)
+Theorem C08_csv_file_faithful :
+  forall ti raws t, csv_table_text ti raws = Ok t ->
+  exists rows, csv_table_rows ti raws = Ok rows /\ csv_read t = Ok rows.
+Proof. exact csv_file_faithful. Qed.
+Print Assumptions C08_csv_file_faithful.
+
+(* str(int) / json / SQL integer literals: every integer, of any size, is read back *)
+Theorem C08_int_roundtrip : forall z, parse_int (dec_text z) = Some z.
+Proof. exact int_roundtrip. Qed.
+Print Assumptions C08_int_roundtrip.
+
+(* JSON (json.dumps with ensure_ascii, JSONOutputStream's framing): for every list of flat objects
+   whose keys and string values are Python strs (code points 0 .. 0x10FFFF) without a high
+   surrogate immediately followed by a low one, tokenizer + parser return exactly the objects:
+   null / true / false / integers of any size / strings with quotes, backslashes, control
+   characters, non-ASCII and non-BMP code points, lone surrogates *)
+Theorem C08_json_roundtrip :
+  forall objs : list jobject, Forall obj_ok objs -> json_read (json_doc objs) = Ok objs.
+Proof. exact json_roundtrip. Qed.
+Print Assumptions C08_json_roundtrip.
+
+(* the hypothesis is needed: the str made of the surrogates U+D83D U+DE00 and the str U+1F600 are
+   written as the same bytes (the first is read back as the second) *)
+Theorem C08_refuted_json_surrogate_pair :
+  json_string [55357; 56832] = json_string [128512] /\
+  json_read (json_doc [[([107], CText [55357; 56832])]]) = Ok [[([107], CText [128512])]].
+Proof. split; [exact json_string_not_injective|vm_compute; reflexivity]. Qed.
+Print Assumptions C08_refuted_json_surrogate_pair.
+
+(* SQL script (sqlite3 iterdump): for every list of rows — table name without a double quote,
+   at least one value, values NULL / integers / texts of any code points except NUL (quotes,
+   semicolons, newlines, "--" included) — the statement splitter and the INSERT parser return
+   exactly the rows *)
+Theorem C08_sql_roundtrip :
+  forall rows : list (text * list cell), Forall sql_row_ok rows -> sql_read (sql_inserts rows) = Ok rows.
+Proof. exact sql_roundtrip. Qed.
+Print Assumptions C08_sql_roundtrip.
+
+(* finding C08-sql-script-nul: the hypothesis "no NUL" is needed — SQLite's quote() ends a text at the first NUL
+   character, so the script of a row holding "a\0b" is the script of a row holding "a" *)
+Theorem C08_refuted_sql_nul_truncates :
+  sql_inserts [([65], [CNum 1; CText [97; 0; 98]])] = sql_inserts [([65], [CNum 1; CText [97]])] /\
+  sql_read (sql_inserts [([65], [CNum 1; CText [97; 0; 98]])]) = Ok [([65], [CNum 1; CText [97]])].
+Proof. split; vm_compute; reflexivity. Qed.
+Print Assumptions C08_refuted_sql_nul_truncates.
+
 (* ---- non-vacuity: the real thresholds, straddled ---- *)
 
 (* (rows visible, rows buffered) after n writes with flush_limit 1000 / commit_limit 10000 *)
@@ -187,3 +290,51 @@ Example C08_ex_encode_dt :
   encode FSql false (VRef "B" (2 ^ 70)) = Ok (CText (text_of_string "1180591620717411303424")) /\
   encode FDb false (VStr [55296]) = Err (Internal "UnicodeEncodeError").
 Proof. repeat split; vm_compute; reflexivity. Qed.
+
+(* ---- non-vacuity: parser and formats ---- *)
+
+(* include file + macro (with a friend and a nested template) + template nested in function
+   arguments: six registered templates; the macro's field reaches the including template *)
+Example C08_ex_parse :
+  parse_recipe
+    [("inc.yml"%string,
+      mkF [] [mkM "m" [] (FCons "mf" FVSimple (FCons "mn" (FVObj (Tpl "C" false [] (FCons "deep" FVSimple FNil) SNil)) FNil))
+                  (SObj (Tpl "D" false [] (FCons "ff" FVSimple FNil) SNil) SNil)]
+          (SObj (Tpl "A" false [] (FCons "Name" FVSimple FNil) SNil) SNil))]
+    (mkF ["inc.yml"%string] []
+         (SObj (Tpl "A" true ["m"%string]
+                    (FCons "own" FVSimple
+                      (FCons "two" (FVArgs (VCons (FVObj (Tpl "B" false [] (FCons "b1" FVSimple FNil) SNil))
+                                           (VCons (FVObj (Tpl "B" false [] (FCons "b2" FVSimple FNil) SNil)) VNil))) FNil))
+                    SNil) SNil))
+  = Ok [mkT "A" ["Name"%string] false; mkT "C" ["deep"%string] false; mkT "D" ["ff"%string] false;
+        mkT "B" ["b1"%string] false; mkT "B" ["b2"%string] false;
+        mkT "A" ["mf"; "mn"; "own"; "two"]%string true].
+Proof. vm_compute. reflexivity. Qed.
+
+(* a macro that includes itself and an include file that includes itself are refused *)
+Example C08_ex_parse_refused :
+  parse_recipe [] (mkF [] [mkM "m" ["m"%string] FNil SNil] (SObj (Tpl "A" false ["m"%string] FNil SNil) SNil))
+    = Err (DGE "Macro calls itself") /\
+  parse_recipe [("a.yml"%string, mkF ["a.yml"%string] [] SNil)] (mkF ["a.yml"%string] [] SNil)
+    = Err (DGE "Include file includes itself").
+Proof. split; vm_compute; reflexivity. Qed.
+
+(* the bytes of a CSV file with a quoting-hostile row, a single empty field and an empty row *)
+Example C08_ex_csv :
+  csv_file [[[97; 44; 98]; [34]; []]; [[]]; []]
+  = [34; 97; 44; 98; 34; 44; 34; 34; 34; 34; 44; 13; 10;  34; 34; 13; 10;  13; 10].
+Proof. vm_compute. reflexivity. Qed.
+
+(* one object in a document: a quote, a non-ASCII letter, a non-BMP code point (written as a
+   surrogate pair) and a newline inside a string; null; true *)
+Example C08_ex_json :
+  json_doc [[([105; 100], CNum 1); ([115], CText [34; 233; 128512; 10]); ([110], CNull); ([98], CBool true)]]
+  = text_of_string "[{""id"": 1, ""s"": ""\""\u00e9\ud83d\ude00\n"", ""n"": null, ""b"": true}]" ++ [10].
+Proof. vm_compute. reflexivity. Qed.
+
+(* INSERT INTO "A" VALUES(1,'it''s; --',NULL) *)
+Example C08_ex_sql :
+  sql_insert [65] [CNum 1; CText (text_of_string "it's; --"); CNull]
+  = text_of_string "INSERT INTO ""A"" VALUES(1,'it''s; --',NULL)".
+Proof. vm_compute. reflexivity. Qed.
